@@ -142,6 +142,35 @@ def gen_scenario(r, cfg):
     return ops
 
 
+def gen_expired_behind(r, cfg):
+    """an entry that HAS EXPIRED BUT HAS NOT BEEN LOOKED UP sits behind live entries in the order queue when a store
+    overflows: the oldest entry z is used again while fresh (recency policies move it to the back), the younger ones stay
+    in front; then z reaches its ttl, the others do not, and new keys arrive"""
+    T = cfg["ttl"] * 1000
+    cap = cfg["limit"] if (cfg["limit"] is not None and cfg["limit"] < 1000) else 3
+    is_async = cfg["fl"] == "a"
+    ins = "insm" if cfg["mem"] is not None else "ins"
+    sz = SIZES[0]
+    gap = 1000 if is_async else r.pick([250, 500])
+    if T <= gap:
+        gap = T // 2 if not is_async else T
+    ops, v = [], 1
+    ops.append((0, ins, [0, v, sz]))
+    for j in range(1, max(2, cap)):
+        v += 1
+        ops.append((gap if j == 1 else 0, ins, [j, v, sz]))
+    for _ in range(1 + r.below(2)):
+        ops.append((0, "get", [0]))                      # z used again while fresh
+    if r.chance(1, 2):
+        ops.append((0, "get", [1]))
+    ops.append((max(0, T - gap), "get", [1]) if r.chance(1, 3) else (max(0, T - gap), ins, [cap + 1, v + 1, sz]))   # z is T old now
+    v += 2
+    for j in range(2 + r.below(2)):
+        ops.append((0, ins, [cap + 2 + j, v + j, sz]))
+    ops.append((0, "get", [0]))
+    return ops
+
+
 def gen_lifetime(r, cfg):
     """lifetime probes for the TTL property: every key is stored, looked up at chosen ages below T
     (a hit must not prolong the entry's life), possibly stored again (the new entry's life starts
@@ -244,7 +273,16 @@ def main():
         for i in range(a.count):
             cfg = gen_cfg(r, prof)
             nops = a.nops // 2 + r.below(a.nops)
-            if prof.get("scenarios") and r.chance(1, 2):
+            if prof.get("extremes") and r.chance(1, 10):
+                # every flavour x policy with an entry limit of 3-4 and a short ttl: an expired, not yet purged entry BEHIND
+                # live ones when a store overflows
+                cfg = dict(fl=r.pick(FLAVOURS), pol=r.pick(POLICIES), limit=r.pick([3, 4]), ttl=r.pick([1, 2]),
+                           mem=r.pick([None, None, 100]), fw=None)
+                ops = gen_expired_behind(r, cfg)
+            elif cfg["ttl"] and (prof.get("scenarios") or prof.get("lifetime") or prof.get("extremes") or a.prop == "C04") \
+                    and cfg["ttl"] < 100 and r.chance(1, 6):
+                ops = gen_expired_behind(r, cfg)
+            elif prof.get("scenarios") and r.chance(1, 2):
                 ops = gen_scenario(r, cfg)
             elif prof.get("lifetime") and r.chance(1, 3):
                 ops = gen_lifetime(r, cfg)
